@@ -119,3 +119,92 @@ Fixpoint spec_run (defaults : tree) (s : state) (ops : list op) : state * list o
   | o :: r => let (s1, x) := spec_step defaults s o in
               let (s2, xs) := spec_run defaults s1 r in (s2, x :: xs)
   end.
+
+(* ------------------------------------------------------------------------------------------
+   Generalised machine (round 2 of the C18 development, after an independent audit):
+   * the after-validators of Config are DATA (a list of stages regenerated from the source), so
+     that "the singleton is registered late" is a derived fact about that list, not a switch;
+   * whether the model owning a setting is frozen is DATA too (a predicate on the owner's path),
+     and a mutation of an unfrozen owner really changes the active configuration.
+   ------------------------------------------------------------------------------------------ *)
+Inductive vstage :=
+  | VRefuseIfActive      (* if _config is not None: raise RuntimeError *)
+  | VResolve             (* a validator that may raise (missing data file) *)
+  | VRegister.           (* _config = self *)
+
+Fixpoint run_validators (vs : list vstage) (path_fails : bool) (s : state) (c : tree) : state * out :=
+  match vs with
+  | [] => (s, OkUnit)
+  | VRefuseIfActive :: r =>
+      match s with Some _ => (s, ErrAlready) | None => run_validators r path_fails s c end
+  | VResolve :: r => if path_fails then (s, ErrPath) else run_validators r path_fails s c
+  | VRegister :: r => run_validators r path_fails (Some c) c
+  end.
+
+Definition found_stages    : list vstage := [VRefuseIfActive; VRegister; VResolve].
+Definition repaired_stages : list vstage := [VRefuseIfActive; VResolve; VRefuseIfActive; VRegister].
+
+(* no stage that can raise comes after a registration *)
+Fixpoint nothing_fails_after_register (vs : list vstage) (registered : bool) : bool :=
+  match vs with
+  | [] => true
+  | VRegister :: r => nothing_fails_after_register r true
+  | VResolve :: r => negb registered && nothing_fails_after_register r registered
+  | VRefuseIfActive :: r => negb registered && nothing_fails_after_register r registered
+  end.
+
+Fixpoint set_path (p : list string) (v : tree) (t : tree) : tree :=
+  match p with
+  | [] => v
+  | k :: r => match t with
+              | Node kids => match lookup k kids with
+                             | Some c => Node (set k (set_path r v c) kids)
+                             | None => Node (set k (set_path r v (Node [])) kids)
+                             end
+              | Leaf _ => t
+              end
+  end.
+
+Inductive opg :=
+  | LoadG (file kwargs : tree) (fk : fail_kind)
+  | ResetG | GetG | ReadG (p : list string)
+  | MutateG (p : list string) (v : Z).
+
+Section General.
+  Variable defaults : tree.
+  Variable stages : list vstage.
+  Variable frozen : list string -> bool.     (* is the model owning the setting at this path frozen? *)
+
+  Definition owner (p : list string) : list string := removelast p.
+
+  Definition step_g (s : state) (o : opg) : state * out :=
+    match o with
+    | LoadG file kwargs fk =>
+        match fk with
+        | FkOpen => (s, ErrOpen)
+        | FkField => (s, ErrField)
+        | FkPath => run_validators stages true s (effective defaults file kwargs)
+        | FkNone => run_validators stages false s (effective defaults file kwargs)
+        end
+    | ResetG => (None, OkUnit)
+    | GetG => match s with Some _ => (s, OkUnit) | None => (s, ErrNotSet) end
+    | ReadG p => match s with Some c => (s, OkVal (get p c)) | None => (s, ErrNotSet) end
+    | MutateG p v =>
+        match s with
+        | None => (s, ErrNotSet)
+        | Some c => if frozen (owner p) then (s, ErrFrozen)
+                    else (Some (set_path p (Leaf v) c), OkUnit)
+        end
+    end.
+
+  Fixpoint run_g (s : state) (ops : list opg) : state * list out :=
+    match ops with
+    | [] => (s, [])
+    | o :: r => let (s1, x) := step_g s o in let (s2, xs) := run_g s1 r in (s2, x :: xs)
+    end.
+End General.
+
+Definition forget (o : opg) : op :=
+  match o with
+  | LoadG f k fk => Load f k fk | ResetG => Reset | GetG => Get | ReadG p => Read p | MutateG p _ => Mutate p
+  end.
